@@ -385,9 +385,13 @@ class Director:
         self.conns[hello[1]] = c
         return {'hello': hello[1], 'proxies': hello[2]}
 
+    def _subst(self, cmd):
+        return [self.saved.pop(x['$saved']) if isinstance(x, dict) and '$saved' in x else x for x in cmd]
+
     def run_cmd(self, who, cmd):
-        cmd = [self.saved.pop(x['$saved']) if isinstance(x, dict) and '$saved' in x else x for x in cmd]
+        cmd = self._subst(cmd)
         if cmd[0] == 'par':
+            cmd = ['par', [[w, self._subst(c)] for w, c in cmd[1]]]
             # ['par', [[who, cmd], ...]]: issue to all remote clients at once, then run the director's own
             sent = []
             for w, c in cmd[1]:
@@ -511,6 +515,12 @@ class Director:
             if st.get('save') is not None and isinstance(r, dict) and '$bytes' in r:
                 self.saved[st['save']] = r['$bytes']
                 r = {'$bytes': len(r['$bytes']) // 2}
+            if st.get('save_par') and isinstance(r, list):
+                for k, tok in st['save_par'].items():
+                    x = r[int(k)]
+                    if isinstance(x, dict) and '$bytes' in x:
+                        self.saved[tok] = x['$bytes']
+                        r[int(k)] = {'$bytes': len(x['$bytes']) // 2}
             rec['r'] = r
             rec['dt'] = round(time.monotonic() - t0, 4)
             hung = isinstance(r, dict) and '$hang' in r
